@@ -178,7 +178,15 @@ Inductive bop : Type :=
 | EscWithdraw (m k i v d x : Z)
 | L2FeeBurn (u d x : Z)                     (* MintCreateFtTx/NftTx fee: to layer2, burnt *)
 | L2MintIssue (u d x : Z)                   (* MintIssueTx *)
-| L2MintBurn (u d x : Z).                   (* MintBurnTx *)
+| L2MintBurn (u d x : Z)                    (* MintBurnTx *)
+(* round 2: concrete arithmetic and proposal paths *)
+| SpWithdrawProp (pool : Z) (vs : list Z) (amts : list (Z * Z))
+     (* SpendingPoolWithdraw proposal: EVERY listed beneficiary is paid amts, the pool record drops by amts per beneficiary *)
+| SpClaims (pool : Z) (rates : list (Z * Z)) (cl : list (Z * Z * Z))
+     (* ClaimSpendingPool for each (beneficiary, duration, weight): one claim message, or the
+        SpendingPoolDistribution proposal (all beneficiaries, atomically); rates: denom -> Dec per second *)
+| BkMintC (u b : Z) (deps : list (Z * Z * Z))   (* MintBasketToken: deposits (denom, amount, weight of the denom in the basket) *)
+| BkBurnC (u b t : Z) (ds : list Z).            (* BurnBasketToken: ds = the basket's tokens with withdraws enabled *)
 
 (* GetPoolCoins: RoundInt(amount * (1 - Slashed)) *)
 Definition pool_coin (sl x : Z) : Z := round_int (chop_round (dec_of_int x * (dec_one - sl))).
@@ -203,6 +211,31 @@ Definition withdraw_effs (m k i v : Z) (outs : list (Z * Z)) : list eff :=
   flat_map (fun o => [EBook m k i (fst o) (- snd o); ESend m v (fst o) (snd o)]) outs.
 
 Definition guard (b : bool) (es : list eff) : option (list eff) := if b then Some es else None.
+
+(* several payees, several denominations each: record down and coins out, per payee *)
+Definition pay_effs (m k i : Z) (pays : list (Z * list (Z * Z))) : list eff :=
+  flat_map (fun p => withdraw_effs m k i (fst p) (snd p)) pays.
+Definition pays_ok (pays : list (Z * list (Z * Z))) : bool :=
+  forallb (fun p => is_user (fst p) && forallb (fun o => 0 <=? snd o) (snd p)) pays.
+Definition deposit_effs (u m k i : Z) (deps : list (Z * Z)) : list eff :=
+  flat_map (fun o => [ESend u m (fst o) (snd o); EBook m k i (fst o) (snd o)]) deps.
+
+(* ClaimSpendingPool: rate.Amount.Mul(NewDec(duration)).Mul(weight).RoundInt() *)
+Definition claim_amt (rate dur w : Z) : Z := round_int (chop_round (chop_round (rate * dec_of_int dur) * w)).
+Definition claim_outs (rates : list (Z * Z)) (dur w : Z) : list (Z * Z) :=
+  map (fun r => (fst r, claim_amt (snd r) dur w)) rates.
+
+(* MintBasketToken: TruncateInt(sum NewDecFromInt(amount).Mul(rate)) *)
+Definition basket_mint_amt (deps : list (Z * Z * Z)) : Z :=
+  trunc_int (zsum (map (fun e => chop_round (dec_of_int (snd (fst e)) * snd e)) deps)).
+(* BurnBasketToken: portion = Dec(burn).Quo(Dec(supply AFTER the burn)); per token TruncateInt(Dec(amount).Mul(portion)),
+   only positive amounts are withdrawn *)
+Definition burn_portion (t supAfter : Z) : Z := chop_round (Z.quot (dec_of_int t * PREC * PREC) (dec_of_int supAfter)).
+Definition burn_outs (amount : Z -> Z) (portion : Z) (ds : list Z) : list (Z * Z) :=
+  flat_map (fun d => let w := trunc_int (chop_round (dec_of_int (amount d) * portion)) in if 0 <? w then [(d, w)] else []) ds.
+Definition bkburn_effs (u b t : Z) (outs : list (Z * Z)) : list eff :=
+  ESend u BASKET (basket_denom b) t :: EBurn BASKET (basket_denom b) t ::
+  withdraw_effs BASKET K_BTOKEN b u outs ++ [EAux A_BAMOUNT b 0 (- t)].
 
 Definition compile (o : bop) (s : state) : option (list eff) :=
   match o with
@@ -236,8 +269,7 @@ Definition compile (o : bop) (s : state) : option (list eff) :=
          EBook BASKET K_BTOKEN b d x; EAux A_BAMOUNT b 0 t]
   | BkBurn u b t outs =>
       guard (is_user u && (0 <=? b) && (0 <? t) && forallb (fun o => 0 <=? snd o) outs)
-        (ESend u BASKET (basket_denom b) t :: EBurn BASKET (basket_denom b) t ::
-         withdraw_effs BASKET K_BTOKEN b u outs ++ [EAux A_BAMOUNT b 0 (- t)])
+        (bkburn_effs u b t outs)
   | BkSwap u b din x fee dout out slip =>
       guard (is_user u && (0 <=? fee) && (fee <=? x) && (0 <=? slip) && (slip <=? out) && negb (din =? dout))
         [ESend u BASKET din x; EBook BASKET K_BTOKEN b din (x - fee); EBook BASKET K_SURPLUS b din fee;
@@ -265,6 +297,24 @@ Definition compile (o : bop) (s : state) : option (list eff) :=
       guard (is_user u && (is_native d || (200000 <=? d))) [EMint L2 d x; ESend L2 u d x]
   | L2MintBurn u d x =>
       guard (is_user u && (is_native d || (200000 <=? d))) [ESend u L2 d x; EBurn L2 d x]
+  | SpWithdrawProp pool vs amts =>
+      let pays := map (fun v => (v, amts)) vs in
+      guard (pays_ok pays) (pay_effs SPEND K_SPOOL pool pays)
+  | SpClaims pool rates cl =>
+      let pays := map (fun c => (fst (fst c), claim_outs rates (snd (fst c)) (snd c))) cl in
+      guard (pays_ok pays) (pay_effs SPEND K_SPOOL pool pays)
+  | BkMintC u b deps =>
+      let t := basket_mint_amt deps in
+      guard (is_user u && (0 <=? b) && (0 <=? t))
+        (deposit_effs u BASKET K_BTOKEN b (map fst deps)
+         ++ [EMint BASKET (basket_denom b) t; ESend BASKET u (basket_denom b) t; EAux A_BAMOUNT b 0 t])
+  | BkBurnC u b t ds =>
+      let supAfter := supply s (basket_denom b) - t in
+      let outs := burn_outs (fun d => book s BASKET K_BTOKEN b d) (burn_portion t supAfter) ds in
+      (* Quo by a zero supply panics; nothing withdrawable is an error; Coins built by Add: one entry per denom *)
+      guard (is_user u && (0 <=? b) && (0 <? t) && negb (supAfter =? 0) && nodupb ds
+             && negb (match outs with [] => true | _ => false end) && forallb (fun o => 0 <=? snd o) outs)
+        (bkburn_effs u b t outs)
   end.
 
 Definition exec (o : bop) (s : state) : option state :=
